@@ -28,7 +28,7 @@ SPEC = dict(
          "Greek, Cyrillic, CJK, astral), random salts, iteration counts 1..4096 (quick) / ..34000 (thorough), random nonces; per case the "
          "honest exchange plus enumerated server misbehaviour: foreign nonce (6 shapes + missing r=), bad parameters (no/empty salt, 14 "
          "malformed counts, duplicates, NUL, case), 7 wrong-signature shapes, extra challenges, wrong/missing rspauth, missing nonce, "
-         "unsupported qop, non-empty HT challenge, missing/foreign token; every respond() result is compared with the Lean model, whose "
+         "unsupported qop, non-empty HT challenge, missing/foreign token; user names with , and = and DIGEST values ending in a backslash included; every respond() result is compared with the Lean model, whose "
          "bytes are computed by the Lean-native SHA/HMAC/PBKDF2/MD5 (cross-checked against python hashlib in the same run). "
          "(b) QXmppSaslDigestMd5::parseMessage on ALL strings over {a = , \" \\ SP} up to length 6 (quick) / 7 (thorough) and on random "
          "malformed strings; serialize+parse on random maps. (c) real SaslManager and Sasl2Manager with a capturing socket: ALL server "
@@ -67,8 +67,9 @@ SPEC = dict(
                "a reference RFC 5802 server with the same secret accepts (XOR algebra) and its server-final is accepted with the "
                "verified flag set; foreign nonce, bad parameters, wrong signature, wrong rspauth are refused; DIGEST response = RFC 2831 "
                "value and accepted by a reference server; PLAIN = RFC 4616 (other password rejected), HT = XEP-0484; "
-               "parseMessage(serializeMessage m) = m unless a value ends in a backslash. Defect theorems with witnesses: early "
-               "<success/> accepted by both managers, user name not escaped, trailing backslash, unquoted directives. "
+               "parseMessage(serializeMessage m) = m for every QMap with token keys; FULL success_only_after_server_proof for every "
+               "server script and both managers (repaired tree: commits 0b21ae7, 43097ab, aca51c7; the old witnesses stay in the corpus). "
+               "One defect theorem left: unquoted DIGEST-MD5 directives. "
                "Model tied to the real clients and managers by byte-exact correspondence.",
     level_note="Proved about the hand-written model; model-to-code tie is differential (exhaustive to the stated depth, sampled beyond). "
                "The 'no server with a different secret accepts' half is an exact algebraic condition plus a named cryptographic "
